@@ -81,6 +81,9 @@ func (c *Connection) handleCallReq(frame *Frame) bool {
 
 	// Close may have been called between the time we checked the state and us creating the exchange.
 	if c.readState() != connectionActive {
+		// Reject the call while the exchange still keeps the connection open,
+		// otherwise the caller never hears back about this request.
+		c.SendSystemError(frame.Header.ID, callReqSpan(frame), ErrChannelClosed)
 		mex.shutdown()
 		return true
 	}
